@@ -39,7 +39,11 @@ Proc(t) == <<IF t.pk = "rt" THEN RtBase ELSE t.base, t.gen>>
 
 TBegin ==
     /\ Is("Begin")
-    /\ st' = [State0(SetOf(T.files), SetOf(T.lf)) EXCEPT !.timeoutMs = T.timeoutMs, !.strictTimer = T.strict]
+    \* T.kind = "afterreset": the trace is the suffix of a run after a completed reset and must be a behaviour
+    \* of an instance that is fresh except that the one-time init has been consumed (property C08)
+    /\ st' = [State0(SetOf(T.files), SetOf(T.lf)) EXCEPT
+                  !.timeoutMs = T.timeoutMs, !.strictTimer = T.strict,
+                  !.srv.initOut = IF T.kind = "afterreset" THEN "closed" ELSE "unset"]
     /\ tp' = 0 /\ Adv
 
 TInitCall ==
@@ -100,7 +104,7 @@ TInvokeCall ==
     /\ T.caller \in Callers
     /\ CallerStartEn(st, T.caller)
     /\ T.k = st.ninv + 1
-    /\ st' = CallerStartDo(st, T.caller, T.pl, T.big)
+    /\ st' = [CallerStartDo(st, T.caller, T.pl, T.big) EXCEPT !.iv[T.k].t0 = T.t]
     /\ UNCHANGED tp /\ Adv
 
 TInvokeRet ==
@@ -189,7 +193,12 @@ Internal ==
             \/ Step(RelAwaitEn(st, k), RelAwaitDo(st, k))
             \/ Step(RelAfterResetEn(st, k), RelAfterResetDo(st, k))
             \/ Step(MainGotResultEn(st, k), MainGotResultDo(st, k))
-            \/ Step(MainTimeoutEn(st, k) /\ (st.strictTimer => ~Urgent(st)), MainTimeoutDo(st, k))
+            \* the timer: not before the function timeout has elapsed (the step lies before the next recorded
+            \* event), and - strict timer rule - not while the emulator itself still has something to do
+            \/ Step(/\ MainTimeoutEn(st, k)
+                    /\ T.t >= st.iv[k].t0 + st.timeoutMs - 2
+                    /\ (st.strictTimer => ~Urgent(st)),
+                    MainTimeoutDo(st, k))
             \/ Step(MainAfterResetEn(st, k), MainAfterResetDo(st, k))
             \/ Step(MainAfterTimeoutEn(st, k), MainAfterTimeoutDo(st, k))
        \/ \E x \in DOMAIN st.rs :
